@@ -287,15 +287,18 @@ def hist_cases(rng, n):
 
 class C06(vlib.Spec):
     prop = "C06"
-    lean_modules = ["Banyan.Props.C06"]
+    lean_modules = ["Banyan.Props.C06", "Banyan.Tie.C06"]
     theorems = ["Banyan.C06." + t for t in [
         "floorDiv_eq_ediv", "grid_fixed_offset", "grid_day_dst", "dayRegular_fixed", "dayRegular_twoTransition",
         "grid_hour_dst_counterexample", "grid_hour1_fallback_counterexample", "grid_hour_dst_partial",
-        "create_spec", "create_sorted", "create_legacy_gap_counterexample", "partition_reachable",
-        "partition_reachable_fixed", "select_exact", "select_sound", "select_nodup", "overlapping_iff_common_point"]]
+        "create_spec", "create_sorted", "create_legacy_gap_counterexample",
+        "select_exact", "select_sound", "overlapping_iff_common_point", "select_nodup",
+        "create_partition", "partition_reachable", "gridLaws_fixed", "partition_reachable_fixed",
+        "gridLaws_day", "partition_reachable_day"]] + [
+        "Banyan.Tie.C06." + t for t in ["std_day_tie", "day_hours_tie", "anchor_tie", "format_tie", "nextTime_shape_tie"]]
     go_driver = "seg"
     lean_driver = "C06"
-    counts = {"quick": 16000, "thorough": 320000}
+    counts = {"quick": 16000, "thorough": 240000}
     trusted_base = [
         "Lean 4.33.0 kernel",
         "correspondence check: Go driver hooks/banyand/internal/verifdrv/seg (real OpenTSDB on a scratch dir, mock clock, "
@@ -324,8 +327,19 @@ class C06(vlib.Spec):
         n_hist = max(20, n // 16)
         return std_cases(rng, n - n_hist) + hist_cases(rng, n_hist)
 
+    def __init__(self):
+        self.stats = {}
+
     def oracle(self, line, g):
+        try:
+            L.branch_stats(line, g, self.stats)
+        except Exception:
+            self.stats["branch:stats-error"] = self.stats.get("branch:stats-error", 0) + 1
         return L.classify("C06", line, g)
+
+    def extra(self, R, tier, rng):
+        for k, v in self.stats.items():
+            R.count(k, v)
 
     def shrink(self, line, still_fails):
         if line.startswith("hist"):
